@@ -39,7 +39,7 @@ func init() {
 				return 500_000
 			}, Run: c14Options,
 				Min: map[string]int64{"decodes": 100000, "with_palette_options": 50000, "with_color_at_options": 50000, "nonsensical_user_colors": 20000, "gradient_looking_user_colors": 5000,
-					"replacement_after_override": 5000, "paths": 100000, "flat": 50000, "suggested_palette_in_file": 30000, "non_rgba_color_models": 20000}},
+					"replacement_after_override": 5000, "paths": 100000, "flat": 50000, "suggested_palette_in_file": 30000, "non_rgba_color_models": 20000, "option_table_prefix_used_first": 10000}},
 		},
 	})
 }
@@ -176,6 +176,20 @@ func c14Options(c *run.Ctx, idx uint64) {
 	var z render.Renderer
 	z.SetRasterizer(rz, rect)
 	d := &rec.Dest{Tee: &z}
+	if len(opts) >= 2 && r.Chance(1, 2) {
+		// The options live in a table with spare capacity of which an earlier
+		// decode used a prefix view: the callee must treat the slice it is
+		// handed as read-only (an append to it would overwrite the caller's
+		// next option).
+		c.Count("option_table_prefix_used_first", 1)
+		tbl := make([]decode.DecodeOption, len(opts), len(opts)+4)
+		copy(tbl, opts)
+		k := r.Range(1, len(opts)-1)
+		if !c.Guard("Decode(prefix of the option table)", func() interface{} { return desc(nil) }, func() { decode.Decode(&rec.Dest{}, b, tbl[:k]...) }) {
+			return
+		}
+		opts = tbl
+	}
 	var derr error
 	if !c.Guard("Decode", func() interface{} { return desc(nil) }, func() { derr = decode.Decode(d, b, opts...) }) {
 		return
